@@ -50,13 +50,14 @@ MANIFEST = {
                  "`fastsignal_set/reset/reset_recheck/wait_is_translated` (the four FastSignal frames of the model are the translated bodies), `queue_ctor_is_ring_init`, `queue_ctor_capacity_is_ceilPow2` (the constructor's bit smearing = ceilPow2 for every size 1..2^32), "
                  "`pool_ctor_is_mkPool`, `lazy_pool_is_default_ctor`, `run_decision_is_translated` (the branch the model takes after the two counter reads of ThreadPool::run is the decision tree the translator obtains from the current source by symbolic execution — counter arithmetic with usize/ssize wrap-around, every condition, nested ifs or early returns alike — for all counters below 2^62; the effect statements are opaque), `run_clock_cond_is_translated`, `run_clock_frames_do_what_the_tree_says`, `run_counters_are_translated`, "
                  "`worker_loop_is_translated` (every decision / access frame of ThreadContext::proc is the translated micro-step with the same number; the model's call-site frames are expanded: `worker_call_sites`), `run_push_loop_is_translated` (push loop with back-pressure + counter accesses of ThreadPool::run; a helper the loop is moved into is inlined), "
+                 "`signal_set_is_translated` / `signal_reset_is_translated` / `signal_wait_is_translated` (Signal::set/reset/wait() of Signal.cpp, pthread branch, on the frames sSet*/sRst*/sWait*), `failed_pop_is_pure` and `fastsignal_set_when_already_set_is_a_no_op` (re-polling an empty queue any number of times / loading _state before the test-and-set change nothing), "
                  "`join_is_translated`, `join_clear_is_translated`, `abort_is_translated`, `flags_are_translated`, `destructor_is_translated`, `set_is_translated`, `result_conversion_is_translated`, `proc_order_is_translated`, `fut_ctor_is_default`, "
                  "`flags_after_join_translated` (the last sentence of C10 with the translated isFinished()/isAborted()), `size_body_never_underflows` (LockFreeQueue::size against arbitrary concurrent steps).  "
                  "PropsRestart.lean: `abortReq_is_abort_since_last_start` (the ghost flag equals a scan of the run's event history: last arming / abort() / destruction of the future), `flags_after_join_across_restarts`, "
                  "`aborted_after_join_means_abort_since_last_start` (isAborted() after join implies an abort() on this object after its LAST start, for any sequence of starts / aborts / joins / destroys / re-starts), `restart_history_witness`."),
-        "note": ("Translated and proved equal to the model step (round 7, regenerated on every run): LockFreeQueue push/pop/size/constructor, FastSignal set/reset/wait, ThreadPool constructor, the worker loop ThreadContext::proc, the push loop and counter accesses of ThreadPool::run, the worker-count decision of ThreadPool::run (arithmetic with wrap-around + all conditions, as a decision tree), Future<void> constructor/destructor/join/abort/isAborting/isFinished/isAborted/set, Future<A> conversion/destructor (its other members are checked to be plain forwards), the action order of the two proc templates.  "
+        "note": ("Translated and proved equal to the model step (round 7, regenerated on every run): LockFreeQueue push/pop/size/constructor, FastSignal set/reset/wait, Signal::set/reset/wait(), ThreadPool constructor, the worker loop ThreadContext::proc, the push loop and counter accesses of ThreadPool::run, the worker-count decision of ThreadPool::run (arithmetic with wrap-around + all conditions, as a decision tree), Future<void> constructor/destructor/join/abort/isAborting/isFinished/isAborted/set, Future<A> conversion/destructor (its other members are checked to be plain forwards), the action order of the two proc templates.  "
                  "The translator's own assumptions: ring tickets as Nat without wrap-around (the counters of run() ARE translated with 64-bit wrap-around), `x & _capacityMask` as `&&&` (= `%` for the power-of-two capacity, proved), node->head = (usize)-1 as `none`, a destructor call of the trivially destructible Job is no memory access, Atomic::* with their documented meaning, the ghost logs are not produced by the code.  "
-                 "HAND-translated and only tied by the step-by-step replay: the effect statements of ThreadPool::run after its decision (spawn / retire branches under the mutex, purge of the context list, Thread::start and its failure branch), ~ThreadPool, startProc (lazy pool under the spin lock), Signal.cpp; "
+                 "HAND-translated and only tied by the step-by-step replay: the effect statements of ThreadPool::run after its decision (spawn / retire branches under the mutex, purge of the context list, Thread::start and its failure branch), ~ThreadPool, startProc (lazy pool under the spin lock), of Signal.cpp the constructor / destructor / wait(timeout); "
                  "sequentially consistent atomics; the "
                  "simulated POSIX semantics (mutex, condition variable with spurious wake-ups, create/join, virtual clock) is an assumption shared by scheduler and model; scheduling "
                  "points of the implementation run are atomic operations and pthread calls only (plain volatile reads are not separately interleaved in the run, they are in the "
@@ -188,7 +189,7 @@ def driver_lines(scn, trace, repaired):
     out = [scn.model_cfg(repaired).replace(" rep=", f" hooks={hooks_of(trace)} split={split_of(trace)} sfix={sfix_of(trace)} rep=", 1)]
     for l in trace:
         if l.startswith("S "):
-            out.append("S " + l.split()[1])
+            out.append("S " + (l.split() + ["?"])[1])
         elif l.startswith("V "):
             out.append("V")
         elif l.startswith("F "):
@@ -265,84 +266,87 @@ def reference(scn, trace, limit_hit=None):
     for l in trace:
         n += 1
         t = l.split()
-        if l.startswith("S "):
-            step_thread = int(t[1])
-        elif l.startswith("X result-"):
-            # ledger of the tracked result object of Future<A>: stored into / read from / copied from an instance whose destructor has run
-            bad.append(("result-object-used-after-destroy:" + t[1], l))
-        elif l.startswith("X "):
-            bad.append(("posix-misuse:" + t[1], l))
-        elif l.startswith("O body body "):
-            bodydone[int(t[3])] = n
-        elif l.startswith("O xchg ") and t[2].endswith(".state") and t[2][0] in "fg" and t[2][1].isdigit():
-            fut = t[2].split(".")[0]
-            if fut in pending:
-                completed[pending[fut]] = n
-        elif l.startswith("E "):
-            tid, ev = int(t[1]), t[2]
-            if ev == "create" and tid == 0:
-                clients.add(int(t[3][1:]))
-            elif ev == "create":
-                workers.add(int(t[3][1:]))
-            elif ev == "create-failed":
-                failed_creates.append(int(t[3][1:]))
-            elif ev == "rec-new":
-                a = int(t[3])
-                news[a] = news.get(a, 0) + 1
-                if a in starts:
-                    fut = starts[a][0]
-                    # a re-start joins the previous call first: it must be complete before the new one is queued
-                    pending[fut] = a
-                    cur[fut] = a
-            elif ev == "rec-del":
-                a = int(t[3])
-                dels[a] = dels.get(a, 0) + 1
-                if a not in bodydone:
-                    bad.append(("record-freed-before-body", l))
-                if dels[a] > 1:
-                    bad.append(("record-freed-twice", l))
-            elif ev == "exec":
-                a, b = int(t[3]), int(t[4])
-                execs.setdefault(a, []).append((b, tid))
-                if a not in starts:
-                    bad.append(("exec-of-unknown-call", l))
-                else:
-                    if starts[a][1] != b:
-                        bad.append(("wrong-arguments", l))
-                    if tid in clients or tid == 0:
-                        bad.append(("body-run-by-non-worker", l))
-                if len(execs[a]) > 1:
-                    bad.append(("executed-twice", l))
-            elif ev == "started":
-                abort_since[t[3]] = False
-            elif ev == "abort":
-                abort_since[t[3]] = True
-            elif ev in ("joined", "result", "destroyed"):
-                fut = t[3]
-                a = pending.get(fut)
-                if a is not None:
-                    if a not in completed:
-                        bad.append((f"{ev}-before-completion", l))
-                    pending.pop(fut, None)
-                if ev == "destroyed":
-                    cur.pop(fut, None)
-                    abort_since.pop(fut, None)
-                if ev == "result":
-                    a = cur.get(fut)
-                    if a in starts:       # (the result of a never-started future is unspecified)
-                        exp = a * 100 + starts[a][1]
-                        if not t[4].lstrip("-").isdigit() or int(t[4]) != exp:
-                            bad.append(("wrong-result", l + f" expected={exp}"))
-            elif ev == "query":
-                fut = t[3]
-                kv = dict(x.split("=") for x in t[4:])
-                if fut in cur and fut not in pending:      # after join
-                    if kv["aborted"] == "1" and not abort_since.get(fut, False):
-                        bad.append(("aborted-without-abort", l))
-                    if kv["aborted"] == "0" and kv["finished"] != "1":
-                        bad.append(("not-finished-after-join", l))
-        elif l.startswith("V "):
-            verdict = t[1]
+        try:      # a crashed run (sanitizer abort) can cut its output in the middle of a line: such a line is skipped, the run is a `crash`
+            if l.startswith("S "):
+                step_thread = int(t[1])
+            elif l.startswith("X result-"):
+                # ledger of the tracked result object of Future<A>: stored into / read from / copied from an instance whose destructor has run
+                bad.append(("result-object-used-after-destroy:" + t[1], l))
+            elif l.startswith("X "):
+                bad.append(("posix-misuse:" + t[1], l))
+            elif l.startswith("O body body "):
+                bodydone[int(t[3])] = n
+            elif l.startswith("O xchg ") and t[2].endswith(".state") and t[2][0] in "fg" and t[2][1].isdigit():
+                fut = t[2].split(".")[0]
+                if fut in pending:
+                    completed[pending[fut]] = n
+            elif l.startswith("E "):
+                tid, ev = int(t[1]), t[2]
+                if ev == "create" and tid == 0:
+                    clients.add(int(t[3][1:]))
+                elif ev == "create":
+                    workers.add(int(t[3][1:]))
+                elif ev == "create-failed":
+                    failed_creates.append(int(t[3][1:]))
+                elif ev == "rec-new":
+                    a = int(t[3])
+                    news[a] = news.get(a, 0) + 1
+                    if a in starts:
+                        fut = starts[a][0]
+                        # a re-start joins the previous call first: it must be complete before the new one is queued
+                        pending[fut] = a
+                        cur[fut] = a
+                elif ev == "rec-del":
+                    a = int(t[3])
+                    dels[a] = dels.get(a, 0) + 1
+                    if a not in bodydone:
+                        bad.append(("record-freed-before-body", l))
+                    if dels[a] > 1:
+                        bad.append(("record-freed-twice", l))
+                elif ev == "exec":
+                    a, b = int(t[3]), int(t[4])
+                    execs.setdefault(a, []).append((b, tid))
+                    if a not in starts:
+                        bad.append(("exec-of-unknown-call", l))
+                    else:
+                        if starts[a][1] != b:
+                            bad.append(("wrong-arguments", l))
+                        if tid in clients or tid == 0:
+                            bad.append(("body-run-by-non-worker", l))
+                    if len(execs[a]) > 1:
+                        bad.append(("executed-twice", l))
+                elif ev == "started":
+                    abort_since[t[3]] = False
+                elif ev == "abort":
+                    abort_since[t[3]] = True
+                elif ev in ("joined", "result", "destroyed"):
+                    fut = t[3]
+                    a = pending.get(fut)
+                    if a is not None:
+                        if a not in completed:
+                            bad.append((f"{ev}-before-completion", l))
+                        pending.pop(fut, None)
+                    if ev == "destroyed":
+                        cur.pop(fut, None)
+                        abort_since.pop(fut, None)
+                    if ev == "result":
+                        a = cur.get(fut)
+                        if a in starts:       # (the result of a never-started future is unspecified)
+                            exp = a * 100 + starts[a][1]
+                            if not t[4].lstrip("-").isdigit() or int(t[4]) != exp:
+                                bad.append(("wrong-result", l + f" expected={exp}"))
+                elif ev == "query":
+                    fut = t[3]
+                    kv = dict(x.split("=") for x in t[4:])
+                    if fut in cur and fut not in pending:      # after join
+                        if kv["aborted"] == "1" and not abort_since.get(fut, False):
+                            bad.append(("aborted-without-abort", l))
+                        if kv["aborted"] == "0" and kv["finished"] != "1":
+                            bad.append(("not-finished-after-join", l))
+            elif l.startswith("V "):
+                verdict = t[1]
+        except (ValueError, IndexError, KeyError):
+            continue
     end = trace[-1] if trace else "end lost"
     if verdict == "BADPREFIX":
         return []        # a recorded schedule that does not fit the current code (replay of an old failure): nothing observed
@@ -430,7 +434,10 @@ def summarize(scn, req, trace, mo, want_enabled):
     for l in trace:
         if l.startswith("S "):
             t = l.split()
-            ch.append((int(t[1]), tuple(int(x) for x in t[2][3:].split(",") if x)))
+            try:
+                ch.append((int(t[1]), tuple(int(x) for x in t[2][3:].split(",") if x)))
+            except (ValueError, IndexError):
+                pass        # line cut by a crash
         elif l.startswith("O "):
             k2 = l.split()[1]
             ops[k2] = ops.get(k2, 0) + 1
@@ -679,6 +686,17 @@ def explore(ctx, exe, pool, repaired, stats, on_result):
     nsf = 30 if quick else 600
     for scn in spawnfail:
         submit(scn, [("rand" if i % 2 else "rands", rng.randrange(1, 10 ** 9), 12000, ()) for i in range(nsf)] + [("np", 1, 6000, ()), ("nps", 1, 12000, ())])
+    # full-queue family (round 7b): several clients start calls back to back into a queue of 1 or 2 slots, so that the first push of run()
+    # fails and a worker frees a slot between that push and the re-check after `_dequeuedSignal.reset()` (the re-check succeeds): the path on
+    # which seeded C10-7 queues the same job twice
+    fullq = [
+        Scn([["s0:11:5", "s1:12:5", "s2:13:5", "j0", "j1", "j2"], ["s3:21:6", "s4:22:6", "s5:23:6", "j3", "j4", "j5"]], q=1),
+        Scn([["s0:11:5", "s1:12:5", "s2:13:5"], ["s3:21:6", "s4:22:6", "s5:23:6"], ["s6:31:1", "s7:32:1"]], q=1, mx=3),
+        Scn([["s0:11:5", "s1:12:5", "s2:13:5", "s3:14:5"], ["s4:21:6", "s5:22:6", "s6:23:6", "s7:24:6"]], q=2),
+    ]
+    nfull = 100 if quick else 1500
+    for scn in fullq:
+        submit(scn, [("rand" if i % 2 else "rands", rng.randrange(1, 10 ** 9), 12000, ()) for i in range(nfull)])
     nstress = 300 if quick else 3000
     for scn in stress:
         submit(scn, [("rand" if i % 2 else "rands", rng.randrange(1, 10 ** 9), 12000, ()) for i in range(nstress)])
@@ -756,6 +774,8 @@ ASSUMPTIONS = [
     "Call.hpp is abstracted: a call record is two integer arguments and a fixed body a*100+b (Args2); the other arities (Args0..5, Member Args0..4) with by-value capture are run on the real code by the harness request `arity` (tie only)",
     "the result object of Future<A> is a tracked non-trivial type in the harness (store into / read of a destroyed instance is a violation); in the model its lifetime is the program counter destroyF (theorem result_store_before_destroy)",
     "tie by translation (tools/gen_future.py): C++ subset semantics of the translator — usize/ssize as Nat/Int (no wrap-around), mask arithmetic on a power-of-two capacity, (usize)-1 in node->head as `none`, the destructor of the trivially destructible Job as no access, Atomic::compareAndSwap/swap/testAndSet/increment/load with their documented meaning, one micro-step per shared access with the thread-local run-on after it",
+    "virtual clock of the controlled scheduler: every reading advances it by `tick`, except readings taken while a ThreadPool is being constructed (the model's constructor has no clock step; the initial value of _idleResetTime is never read before run() stored it)",
+    "the translator drops ASSERT(...) statements (debug checks that write nothing) and treats a const local with a thread-local initialiser as a name for that value",
     "liveness under weak fairness is not decided by schedules of bounded length: the scheduler verdict is deadlock (no enabled thread) or step bound; usize ticket wrap-around at 2^64 is outside the model",
 ]
 
@@ -853,7 +873,7 @@ def report(ctx, exe, repaired, stats, found, diffs, distinct, samples, xres, wre
     ctx.cov["exhaustive_scope"] = (f"{len(small_scenarios())} scenarios (<= 2 clients x <= 2 calls, queue sizes 1/2/4, lazy pool, retire clock): every schedule with "
                                    f"<= {stats['exhaustive_depth']} deviation(s) from the non-preemptive default at any scheduling point (and, in scheduler split mode where the run-on after an operation is a step of its own, every schedule with <= 1 deviation)"
                                    f"{' (second wave sampled to 6000 per scenario)' if stats['exhaustive_sampled'] else ''}: {stats['exhaustive_runs']} runs")
-    ctx.cov["rule"] = ("corpus replays + deviation-bounded exhaustive schedules of the small scope + random schedules (xorshift seeds from VERIF_SEED) of 4 stress scenarios "
+    ctx.cov["rule"] = ("corpus replays + deviation-bounded exhaustive schedules of the small scope + random schedules (xorshift seeds from VERIF_SEED) of 4 stress scenarios, of 3 full-queue scenarios (queue of 1-2 slots, 2-3 clients starting 3-4 calls back to back: failed first push, successful re-check) "
                        "and of generated scenarios (1-3 clients, 1-3 futures each, start/join/result/abort/query/destroy, queue 1..8, min 0..2, max 3..4, lazy pool, clock ticks, "
                        "spurious wake-ups); evaluations = scheduler steps replayed on the model; distinct_nontrivial = distinct (scenario, step count, final summary, op histogram) of runs with >= 20 steps")
     ctx.cov["open_statements"] = OPEN_STATEMENTS
@@ -940,7 +960,7 @@ def arity_stream(ctx, exe, stats):
 
 OPEN_STATEMENTS = ["PropsSpawnFail.lean: safety theorems with refused thread creations are proved for the ORIGINAL failure branch (XReach ⊆ Reach); the REPAIRED branch (fixes/future/0006, XReachFix) is modelled, replayed and kernel-evaluated on three runs, its safety is not transferred (runs leave Reach while _threadCount is transiently too high; needs the handler pcs in Frame)",
                    "PropsSpawnFail.lean: worker steps after the tail rule of the original branch fired (the rule itself is proved safety-neutral); positive liveness (join_eventually under 'a worker exists or a creation eventually succeeds'): only finite progress is proved",
-                   "PropsGen.lean: NOT translated (hand translation, tied by the replay only): the spawn / retire effect statements of ThreadPool::run, ~ThreadPool, startProc, Signal.cpp; the translated bodies are proved equal to the model steps, the C++ subset semantics of the translator is an assumption",
+                   "PropsGen.lean: NOT translated (hand translation, tied by the replay only): the spawn / retire effect statements of ThreadPool::run, ~ThreadPool, startProc; the translated bodies are proved equal to the model steps, the C++ subset semantics of the translator is an assumption",
                    "PropsCall.lean: the pool model carries the Args2 instance of the generic capture record (CallModel.lean, all arities); the header -> CallModel translation is tied by the harness request `arity`"]      # join_eventually is proved outright (Props.lean) since round 2 / fix 0005
 
 
